@@ -10,7 +10,16 @@ import (
 	"ergo.services/ergo/lib"
 )
 
-func (h *handshake) Join(node gen.NodeHandshake, conn net.Conn, id string, options gen.HandshakeOptions) ([]byte, error) {
+func (h *handshake) Join(node gen.NodeHandshake, conn net.Conn, id string, options gen.HandshakeOptions) (tail []byte, err error) {
+	if lib.Recover() {
+		// the messages are made by the peer: whatever is wrong with them must
+		// not take the node down (this runs in the acceptor's/dialer's goroutine)
+		defer func() {
+			if r := recover(); r != nil {
+				err = fmt.Errorf("malformed handshake: %v", r)
+			}
+		}()
+	}
 	salt := lib.RandomString(64)
 	hash := sha256.New()
 	hash.Write([]byte(fmt.Sprintf("%s:%s:%s", id, salt, options.Cookie)))
